@@ -2,7 +2,10 @@
    not of its iteration order.  Theorems only. *)
 From Coq Require Import List NArith ZArith QArith Qcanon Permutation.
 From Okv Require Import Base.Maps Base.Dec Model.Amount Model.Book Model.Query Model.Render Model.OrderSpec
-     Proofs.MapsSort Proofs.RenderProofs Proofs.OrderMaps Proofs.OrderAmount Proofs.OrderBook Proofs.OrderReports.
+     Model.PriceDb Model.PriceSpec
+     Proofs.MapsSort Proofs.RenderProofs Proofs.OrderMaps Proofs.OrderAmount Proofs.OrderBook Proofs.OrderReports
+     Proofs.PriceTable Proofs.OrderPrice.
+From Okv Require Model.ImpConfig Model.ImpExtract Model.OrderImpSpec Proofs.OrderImport.
 Import ListNotations.
 
 (* the canonical (sorted) presentation of a duplicate-free map depends only on its contents *)
@@ -197,3 +200,56 @@ Theorem C13_equivalent_states_that_differ_exist :
     f <> f' /\ st_equiv f f'.
 Proof. exact examples_exist. Qed.
 Print Assumptions C13_equivalent_states_that_differ_exist.
+
+(* ------------------------------------------------------------------------------------------
+   (5) conversion rates.  `rec_equiv recs recs'`: the two-level record map of the price repository
+   in two iteration orders.  `choose` is the pop order of the BinaryHeap (any function), `fuel` the
+   iteration bound.  best_rates (Model/PriceSpec.v) lists the rates of all optimal chains (least
+   Distance); tie_free says they all agree.  A genuine tie (two optimal chains, different rates) is
+   the one case where the answer depended on iteration order (F19, fixed in /repo 3ba7cad by
+   visiting neighbours in commodity order); outside it the answer never depended on any order.
+   ------------------------------------------------------------------------------------------ *)
+Theorem C13_price_table_rate_determined_without_ties :
+  forall recs recs' date target c r0 choose choose' fuel fuel' t t',
+  rec_equiv recs recs' -> c <> target ->
+  best_rates (out_edges recs date) (length (rec_comms recs)) target c = [r0] ->
+  price_table fuel choose recs target date = PTDone t ->
+  price_table fuel' choose' recs' target date = PTDone t' ->
+  exists d, get c t = Some (d, r0) /\ get c t' = Some (d, r0).
+Proof. exact table_rate_singleton. Qed.
+Print Assumptions C13_price_table_rate_determined_without_ties.
+
+(* more generally: same label (distance and rate), or no label in both *)
+Theorem C13_price_table_label_determined_unless_tied :
+  forall recs recs' date target c choose choose' fuel fuel' t t',
+  rec_equiv recs recs' -> c <> target -> tie_free recs date target c ->
+  price_table fuel choose recs target date = PTDone t ->
+  price_table fuel' choose' recs' target date = PTDone t' ->
+  get c t = get c t'.
+Proof. exact table_determined_without_ties. Qed.
+Print Assumptions C13_price_table_label_determined_unless_tied.
+
+(* so converting one commodity gives the same value, or the same RateNotFound *)
+Theorem C13_convert_single_determined_unless_tied :
+  forall recs recs' date target c v choose choose' fuel fuel' t t',
+  rec_equiv recs recs' -> (c <> target -> tie_free recs date target c) ->
+  price_table fuel choose recs target date = PTDone t ->
+  price_table fuel' choose' recs' target date = PTDone t' ->
+  convert_single fuel choose recs c v target date = convert_single fuel' choose' recs' c v target date.
+Proof. exact convert_single_determined. Qed.
+Print Assumptions C13_convert_single_determined_unless_tied.
+
+(* (5) import rules.  The entries of a FieldMatcher (a HashMap from field to pattern, so the fields
+   are distinct) are applied in list order, each seeing the fragment left by the previous ones.  For
+   matchers that behave like CsvMatcher (csv_like, Model/OrderImpSpec.v: only the payee matcher reads
+   or writes the fragment) every order gives the same result.  For the other importers the order
+   matters (Proofs/OrderImport.v, order_matters_without_csv_like), which is why the code now sorts
+   the fields (/repo cce0c70). *)
+Theorem C13_and_matcher_order_independent_csv :
+  forall (P R : Type)
+         (matches : ImpConfig.rewrite_field * P -> R -> ImpExtract.frag -> option ImpExtract.captures),
+  OrderImpSpec.csv_like matches ->
+  forall ms ms', Permutation ms ms' -> NoDup (map fst ms) ->
+  forall f e, ImpExtract.and_extract matches ms f e = ImpExtract.and_extract matches ms' f e.
+Proof. exact @OrderImport.and_extract_perm. Qed.
+Print Assumptions C13_and_matcher_order_independent_csv.
